@@ -434,7 +434,13 @@ func c01(r *vlib.Run) int {
 	dir := r.Dir("c01files")
 	vlib.Parallel(n, 12, func(i int) {
 		c := cases[i]
-		path := filepath.Join(dir, fmt.Sprintf("f%d.log%s", i, c.Container))
+		// file names of every kind a file system allows and the wire command can carry (no blank: recorded finding
+		// c08.space-in-path; no wildcard characters): the name travels inside the request
+		weird := []string{"", "", "", "~", "a~", "ab~", "ü", "日本語", ">", "+x", "x+", "%41", "=", "a=b", "^", ";", "'q'", "#", "@", "!", "ÿþ", "~~~", "&", "$HOME", "(1)", "{a}", "\u00e9"}[i%27] // (no comma: it separates the files of --files)
+		path := filepath.Join(dir, fmt.Sprintf("f%d%s.log%s", i, weird, c.Container))
+		if weird != "" {
+			r.Count("files_with_unusual_names", 1)
+		}
 		os.WriteFile(path, compress(c.Container, c.Content), 0644)
 		defer os.Remove(path)
 		c01Run(r, i, c, path, fleets[c.M], cfgs[c.M])
